@@ -336,6 +336,13 @@ for pid, nm in (("C05", "c05_store_sweep_async"), ("C04", "c04_store_sweep_async
     kw = {} if pid == "C05" else {"alias_of": "c05_store_sweep_async"}
     H(pid, nm, "store", SWFA, SWB + "; the async flavour's sweep (a plain loop; the sync flavour's iterator chain is thorough-tier only); policy cost/remove are recorders", timeout=7200, mem_gb=50, tier="thorough", features="sync,async", **kw)
 
+# cross-property aliases added after round 6 of the seeded changes (the defect was caught, but by another property's check)
+H("C07", "c07_new_wiring", "cache::sync", WIRE, WIREB + "; victims the policy evicted are removed from the store also when the newcomer is then rejected", timeout=1800, cover_tags=["new"], alias_of="c06_new_wiring")
+IDX["C07"]["assumptions"] += [CHAN, MREC, PARK, ARCD, WIREA]
+H("C01", "c01_colliding_remove", "cache::sync", ISOF, ISOB + ": the resident key stays charged, so charged total == cost of resident entries", timeout=1800, mem_gb=20, cover_tags=["remove"], alias_of="c18_cache_isolation_remove")
+H("C04", "c04_slfu_step", "policy", ["SampledLFU::increment", "SampledLFU::remove", "SampledLFU::update", "SampledLFU::clear", "SampledLFU::contains"], "arbitrary SampledLFU with <= 3 residents in arbitrary slots satisfying I-P, arbitrary key/cost, one operation: a cost-lowering update gives the budget back (otherwise later inserts are refused although they fit)", timeout=900, alias_of="c01_slfu_step")
+H("C16", "c16_builder_core_setters", "cache::builder", BSET, "one setter call (any of the 12) from an arbitrary builder state: ignore_internal_cost (which decides whether the per-entry overhead is charged) survives every other setter", timeout=600, alias_of="c20_builder_core_setters")
+H("C20", "c20_ring_batches", "ring", ["RingStripe::new", "RingStripe::push"], "buffer_items symbolic in 0..3 (0 included: accepted by the builder), 1..5 lookups of arbitrary keys, arbitrary answers of the policy: no panic in the caller", timeout=1200, alias_of="c15_ring_batches")
 # a refused write must leave deadline and expiry index alone: also what C03 (deadline) and C05 (reclaimed on time) rest on
 H("C03", "c03_store_veto_update", "store", STF, SB + TTLB + "; validator vetoes: the resident entry keeps its deadline", timeout=1200, cover_tags=["update"], cover_optional=["update applied"], alias_of="c09_store_veto_update")
 H("C05", "c05_store_veto_update_em", "store", STF, SB + TTLB + "; validator vetoes: the resident entry stays filed under its own deadline", timeout=1800, cover_tags=["update"], cover_optional=["update applied"], mem_gb=28, alias_of="c09_store_veto_update_em")
